@@ -26,7 +26,7 @@ WIDTH = ("f", SELF, "_CountMinSketch__width", 0)
 def rf(e):
     """canonical row form: positional indexing resolved to the underlying per-row expression (and a step cut short at a bound
     written as the saturating update it is)"""
-    return canon(bounded_step(canon(rowform(e))))
+    return canon(bounded_step(rowform(e)))
 
 
 def leaves(v):
